@@ -210,6 +210,13 @@ def Site.limit : Site → Nat
   | .server => 1048576
   | .client => 16777216
 
+/-- the time-out period of each site, in milliseconds: `serverResponseTimeout` = 10 s,
+`clientResponseTimeout` = 20 s.  A function of the site alone: the period does not depend on what
+is outstanding when a read begins. -/
+def Site.timeoutMs : Site → Nat
+  | .server => 10000
+  | .client => 20000
+
 /-- one `ReadDelimitedMessage` at a call site (up to `Unmarshal`) -/
 def readAt (s : Site) (r : Reader) : MsgOut := readMessage s.limit r
 
